@@ -5,7 +5,7 @@ from simple import Simple
 
 S = Simple("C13", "wipe", "wipe.cpp",
            lambda tier: [Cfg("asm"), Cfg("c32", 3, 3, 3), Cfg("generic"), Cfg("c64", 2, 1, 2), Cfg("dxor", 4, 4, 4)] if tier == "quick" else hb.five_backends() + [Cfg("c32", 3, 3, 3), Cfg("c64", 2, 1, 2), Cfg("asm", 2, 2, 2)],
-           lambda tier: [("c13_wipe", 150000 if tier == "quick" else 1500000, 100)],
+           lambda tier: [("c13_wipe", 150000 if tier == "quick" else 6000000, 100)],
            "Case = (object type out of 39: ascon_state_t, 3 incremental AEAD states, hash/hasha/xof/xofa, prf, hmac(a), kmac(a), kdf(a), hkdf(a), PRNG state, 3 ISAP keys, "
            "masked key 128/160, the 12 C++ cipher classes, C++ hash/hasha/xof/xofa; a public history: nonce, AD, chunking of the message, output length, flags selecting "
            "finalize/squeeze/encrypt/randomize/reseed steps; end action free / clear() / destructor via placement new in harness-owned storage; and two independent sets of "
